@@ -135,6 +135,8 @@ def run(ctx, w):
     # R8 / R9 shared
     c04.print_rules(ctx, w, S, R)
     c17.clamp_rule(ctx, w, S, R)
+    # "row < rows and col <= cols": every value handed to the cursor setters is bounded (C05.V9/V10)
+    c05.addressing_rules(ctx, w, S, R)
     if ctx.tier == "thorough":
         witnesses(ctx, w)
 
